@@ -24,6 +24,7 @@ package main
 import (
 	"bytes"
 	"context"
+	"crypto/sha256"
 	"encoding/hex"
 	"encoding/json"
 	"fmt"
@@ -904,6 +905,7 @@ type runner struct {
 	nChild   int
 	childK   int
 	confirmed map[string]bool
+	pqSeen    map[string]bool
 	childTime time.Duration
 }
 
@@ -929,6 +931,10 @@ func (rn *runner) runSeq(sq *seqSpec) seqResult {
 	c := rn.c
 	var res seqResult
 	rn.nSeq++
+	if d := os.Getenv("C04_DUMP"); d != "" { // debugging aid: the sequence about to run
+		js, _ := json.Marshal(sq)
+		os.WriteFile(d, js, 0o644)
+	}
 	ingest.VerifC04RecoverFlush.Store(true)
 	ingest.VerifC04TraceOn.Store(true)
 	ingest.VerifC04TakeTrace()
@@ -1353,6 +1359,73 @@ func fatalStack(stderr string) string {
 	return rest
 }
 
+// ---- Parquet uploads are screened before the parent executes them: arrow-go's pqarrow reads columns on
+// its own errgroup goroutines, a panic there cannot be recovered by anybody (neither fiber's middleware in
+// the real server nor this harness). A generator-built file is trusted; any other upload whose footer parses
+// is first sent, alone, to a fresh server in a CHILD process. If the child dies, that is the finding, and the
+// request is removed from the sequence the parent runs.
+func (rn *runner) screenSeq(sq *seqSpec) {
+	var keep []reqSpec
+	for i := range sq.Reqs {
+		r := sq.Reqs[i]
+		if r.Ep != "parquet" || r.NoFile || rn.parquetSafe(&r) {
+			keep = append(keep, r)
+			continue
+		}
+		rn.c.Tag("parquet-upload-removed-from-parent-run(child died)")
+	}
+	sq.Reqs = keep
+}
+
+func (rn *runner) parquetSafe(r *reqSpec) bool {
+	trusted := !strings.Contains(r.Tag, "mutated") && !strings.Contains(r.Tag, "random-bytes") && !strings.Contains(r.Tag, "corpus") && !strings.Contains(r.Tag, "broken")
+	if trusted {
+		return true
+	}
+	h := fmt.Sprintf("%x", sha256.Sum256(r.Body))
+	if v, ok := rn.pqSeen[h]; ok {
+		return v
+	}
+	// footer does not parse: the handler answers 422 on its own goroutine before any column is read
+	g := vh.Guard(func() string {
+		pf, err := file.NewParquetReader(bytes.NewReader(r.Body))
+		if err != nil {
+			return "err"
+		}
+		pf.Close()
+		return "ok"
+	})
+	if g == "err" {
+		rn.pqSeen[h] = true
+		return true
+	}
+	one := seqSpec{MaxBuf: 1000000, WAL: false, Reqs: []reqSpec{*r}, Name: "parquet-screen"}
+	one.Reqs[0].Query = map[string]string{"db": "db1", "measurement": "m"}
+	one.Reqs[0].DBHeader = nil
+	co := rn.runChild(&one)
+	rn.c.Tag("parquet-upload-screened-in-child")
+	if co.exit <= 0 {
+		rn.pqSeen[h] = true
+		return true
+	}
+	rn.pqSeen[h] = false
+	msg := ""
+	if m := panicLine.FindStringSubmatch(co.stderr); m != nil {
+		msg = m[1]
+	}
+	cls := "other"
+	switch {
+	case strings.Contains(co.stderr, "errgroup.(*Group).Go") && strings.Contains(co.stderr, "pqarrow.") && strings.Contains(msg, "nil pointer dereference"):
+		cls = "pqarrow-goroutine-nil-deref"
+	case strings.Contains(co.stderr, "errgroup.(*Group).Go") && strings.Contains(co.stderr, "pqarrow."):
+		cls = "pqarrow-goroutine-panic"
+	}
+	rn.c.Fail("server-crash:parquet-import:"+cls,
+		fmt.Sprintf("one POST /api/v1/import/parquet kills the server process (exit %d, `panic: %s`): importParquet hands the upload to pqarrow.ReadTable, which reads columns on errgroup goroutines; the panic is on one of them, so fiber's recover middleware cannot catch it", co.exit, msg),
+		one.replayText())
+	return false
+}
+
 // confirm re-runs the sequence in a child and reports a dead child as panic:flush-goroutine:<site>
 func (rn *runner) confirm(sq *seqSpec, why string) (died bool, site string) {
 	co := rn.runChild(sq)
@@ -1559,7 +1632,7 @@ func main() {
 	if err != nil {
 		panic(err)
 	}
-	rn := &runner{c: c, exe: exe, confirmed: map[string]bool{}}
+	rn := &runner{c: c, exe: exe, confirmed: map[string]bool{}, pqSeen: map[string]bool{}}
 	c.Extra["library_panics"] = map[string]string{}
 	r := vh.NewRand(c.Seed)
 	nRandom, childEvery := 200, 50
@@ -1576,6 +1649,7 @@ func main() {
 
 	sigSeen := map[string]int{}
 	run := func(sq *seqSpec, forceChild bool) {
+		rn.screenSeq(sq)
 		res := rn.runSeq(sq)
 		why := ""
 		if res.suspicious {
